@@ -94,10 +94,14 @@ pub broadcast group fl {
 }
 
 // R8: unary minus (this Verus rejects float negation); the wrapper IS the operator.
+// (core implements Neg for f64 and for &f64: the wrapper takes either)
+pub trait __NegArg: Sized { spec fn negv(self) -> f64; }
+impl __NegArg for f64 { open spec fn negv(self) -> f64 { self } }
+impl<'a> __NegArg for &'a f64 { open spec fn negv(self) -> f64 { *self } }
 #[verifier::external_body]
-pub fn __neg(x: f64) -> (r: f64)
-    ensures r == fneg(x),
-{ -x }
+pub fn __neg<T: __NegArg>(x: T) -> (r: f64)
+    ensures r == fneg(x.negv()),
+{ unimplemented!() }
 
 
 // f64 methods used by the extracted code: linked to uninterpreted functions (their IEEE facts, where
